@@ -99,7 +99,7 @@ Lemma set_balancer_spec c s o k oc :
       match oc_write oc with
       | None => same_ips (ips_of (c_mem (oc_state oc)) s) (o_status ob) /\ oc_sync oc <> Error
       | Some (st, an) => same_ips (ips_of (c_mem (oc_state oc)) s) st /\
-                         (k_write k = true -> oc_sync oc <> Error) /\ (k_write k = false -> oc_sync oc = Error)
+                         (k_write k = true -> oc_sync oc <> Error) /\ (k_write k = false -> oc_sync oc = Error \/ oc_sync oc = ReprocessAll)
       end
   end.
 Proof.
@@ -123,7 +123,8 @@ Proof.
         intros _. split; [exact HS|]. split.
         -- intros Hw. rewrite Hw. match goal with |- (if ?b then _ else _) <> _ => destruct b end; [congruence|].
            destruct (skey_eqb _ _); destruct ok; congruence.
-        -- intros Hw. rewrite Hw. reflexivity.
+        -- intros Hw. rewrite Hw. match goal with |- (match (if ?b then _ else _) with _ => _ end) = _ \/ _ => destruct b end; [right; reflexivity|].
+           destruct (skey_eqb _ _); [destruct ok|]; auto.
   - destruct (get_alloc (c_mem c) s) eqn:Hg; intros [= <-]; cbn.
     + split; [intros t Ht; apply get_alloc_unassign_other; exact Ht|]. split; [reflexivity|]. split; [auto|].
       split; [intros [I1 I2]; split; cbn; [apply Inv_unassign; exact I1|apply PoolCoh_unassign; exact I2]|].
@@ -190,7 +191,7 @@ Lemma apply_handler_inv w s k w' r :
   (c_have_pools (w_ctl w) = true -> c_have_pools (w_ctl w') = true) /\
   (allocated (c_mem (w_ctl w')) <> [] -> c_have_pools (w_ctl w') = true \/ allocated (c_mem (w_ctl w)) <> []) /\
   w_gate w' = w_gate w /\ w_reload w' = w_reload w /\ w_queue w' = w_queue w /\
-  (r <> Error -> wsynced w' s) /\
+  (r <> Error -> wsynced w' s \/ (r = ReprocessAll /\ aget (w_api w') s <> None)) /\
   (r = ReprocessAll -> c_have_pools (w_ctl w) = true \/ allocated (c_mem (w_ctl w)) <> []).
 Proof.
   unfold apply_handler. rewrite api_get_aget.
@@ -220,10 +221,11 @@ Proof.
       specialize (Hmain Hh).
       destruct (oc_write oc) as [[st an]|].
       * destruct Hmain as (Hs & Hw1 & Hw2). destruct (k_write k) eqn:Ek.
-        -- rewrite aget_put_same. cbn. exact Hs.
-        -- exfalso. apply Hr. apply Hw2. reflexivity.
-      * rewrite Eo. tauto.
-    + destruct Hmain as [Hg Hw]. rewrite Hw, Eo. exact Hg.
+        -- left. rewrite aget_put_same. cbn. exact Hs.
+        -- destruct (Hw2 eq_refl) as [He|He]; [exfalso; apply Hr; exact He|].
+           right. split; [exact He|]. rewrite Eo. discriminate.
+      * left. rewrite Eo. tauto.
+    + left. destruct Hmain as [Hg Hw]. rewrite Hw, Eo. exact Hg.
   - (* a re-sync request presupposes a configuration or a recorded allocation *)
     intros Hr. destruct (aget (w_api w) s) as [o|] eqn:Eo.
     + left. apply Hpools. discriminate.
@@ -272,7 +274,9 @@ Proof.
       (* s was processed now and not again later: it was brought in sync and then left alone *)
       assert (Hrne : r <> Error).
       { intros ->. assert (retry' = true) by (apply Rt'; destruct retry; reflexivity). congruence. }
-      destruct (F' s Hnin) as [A1 A2]. eapply wsynced_ext; [exact A1|exact A2|apply S1; exact Hrne].
+      destruct (F' s Hnin) as [A1 A2]. eapply wsynced_ext; [exact A1|exact A2|].
+      destruct (S1 Hrne) as [Hs|[-> _]]; [exact Hs|].
+      exfalso. assert (retry' = true) by (apply Rt'; destruct retry; reflexivity). congruence.
 Qed.
 
 Lemma get_alloc_omap_none ps (l : list (svc * alloc)) t :
@@ -349,7 +353,12 @@ Proof.
       constructor; cbn.
       * exact HI1.
       * intros t. destruct (N.eq_dec t s) as [->|Hne].
-        -- destruct r; try (left; apply S1; discriminate). right. left. unfold pending. cbn. exact Eq.
+        -- destruct r.
+           ++ destruct S1 as [H|[H _]]; [discriminate|left; exact H|discriminate].
+           ++ right. left. unfold pending. cbn. exact Eq.
+           ++ destruct S1 as [H|[_ H]]; [discriminate|left; exact H|].
+              right. right. split; [exact H|left]. rewrite orb_true_r. reflexivity.
+           ++ destruct S1 as [H|[H _]]; [discriminate|left; exact H|discriminate].
         -- destruct (F1 t Hne) as [A1 A2].
            destruct (HS t) as [H|[H|[H1 H2]]].
            ++ left. eapply wsynced_ext; [exact A1|exact A2|exact H].
